@@ -187,7 +187,17 @@ def finish(pid, prop, tier, seed, t0, b, hyg, ps, cases, impl, failures, disagre
     if not b.go_ok:
         problems.append(('go-build', b.go_msg))
     if not b.make_ok:
-        problems.append(('coq-build', 'files that no longer compile: %s\n%s' % (', '.join(b.failed_files), b.make_msg[-1200:])))
+        # a file that no longer compiles concerns this property when its theorems, the model driver or
+        # the extraction depend on it; unrelated files (another property's proofs) do not
+        roots = ['theories/Model/Driver.v']          # Extract/Extract.v imports Driver only
+        if os.path.exists('%s/theories/Properties/%s.v' % (infra.COQ, pid)):
+            roots.append('theories/Properties/%s.v' % pid)
+        clo = infra.coq_closure(roots)
+        mine = b.failed_files if (clo is None or not b.failed_files) else [f for f in b.failed_files if f in clo]
+        if mine or 'extraction/ocaml build failed' in b.make_msg:
+            problems.append(('coq-build', 'files that no longer compile: %s\n%s' % (', '.join(mine), b.make_msg[-1200:])))
+        else:
+            extra_cov['unrelated_coq_failures'] = b.failed_files
     if hyg:
         problems.append(('hygiene', '; '.join(hyg)))
     if prop.level == 'proof' and not ps['ok']:
